@@ -151,7 +151,9 @@ def run_shard(ctx):
                                  ["ALTER TABLE t RENAME COLUMN zz_unknown TO zz_other;"], ["ALTER TABLE t ADD COLUMN c9 int;", "ALTER TABLE t MODIFY COLUMN c9 bigint;"],
                                  # ... and ALTERs of a KEY column: renamed, the key follows it; dropped (listed defect: the key keeps the name)
                                  ["ALTER TABLE t RENAME COLUMN %s TO z0;" % cl["cols"][0]], ["ALTER TABLE t RENAME COLUMN %s TO \"Z 1\";" % cl["cols"][-1], "ALTER TABLE t RENAME COLUMN c2 TO zz2;"],
-                                 ["ALTER TABLE t DROP COLUMN %s;" % cl["cols"][-1]]][(k // 3) % 8]
+                                 ["ALTER TABLE t DROP COLUMN %s;" % cl["cols"][-1]],
+                                 # ... and a column ADDed with its own inline key / reference
+                                 ["ALTER TABLE t ADD order_id int PRIMARY KEY;"], ["ALTER TABLE t ADD ref_id int NOT NULL REFERENCES p (k);", "ALTER TABLE t ADD y int PRIMARY KEY;"]][(k // 3) % 10]
                     ddl = finish_script([render(S.table_tokens(t), layout, rng)] + extra + ["DROP TABLE old_t;", "DROP TABLE s.old_t2;"])
                     for mode in ("sql", "mssql", "bigquery", "oracle"):
                         case = {"gen": "key_orders", "ddl": ddl, "ctor": {}, "mode": mode, "group_by_type": bool(k % 3 == 0), "json_dump": True}
